@@ -536,6 +536,20 @@ def shift_kind(ctx, py, rule="PY-SHIFT-KIND", floor=3):
                 ctx.ob(rule, "%s|%s" % (qn, col), ok, m.loc(fn), "%s is shifted" % col if ok else
                        "%s is not shifted explicitly (and no by-name selection shifts it)" % col)
     ctx.ob(rule, "instances", n >= 1, m.rel, "%d shifted operands analysed" % n)
+    # the precondition: migrations reaching beyond the edges on EITHER side make the shift produce coordinates outside [0, L]
+    tc = m.funcs.get("TableCollection._check_trim_conditions")
+    if tc is not None:
+        for x in ast.walk(tc):
+            if isinstance(x, ast.BoolOp):
+                txt = [ast.unparse(v) for v in x.values]
+                l = any("migrations.left" in t_ for t_ in txt)
+                r = any("migrations.right" in t_ for t_ in txt)
+                if l and r:
+                    ok = isinstance(x.op, ast.Or)
+                    ctx.ob(rule, "_check_trim_conditions|either-side", ok, m.loc(x),
+                           "migrations beyond the leftmost OR the rightmost edge are refused" if ok else
+                           "the two migration-bound tests are joined with `and`: migrations that overhang on one side only pass, and "
+                           "ltrim gives them negative coordinates")
     return n
 
 
@@ -668,3 +682,34 @@ def alloc_domain(fn):
                             out.append((x, "`%s` cuts an array with one entry per %s at a count of %s: the positions are %s ids" % (
                                 ast.unparse(x)[:50], dom[x.value.id][:-1], sorted(ms)[0], dom[x.value.id][:-1])))
     return out
+
+
+def validation_bypass(ctx, py, rule="PY-BYPASS"):
+    ctx.rule(rule, "row validation is skipped (MetadataSchema._bypass_validation) only for a schema that cannot reject anything: every "
+                   "is_schema_trivial implementation decides on the WHOLE schema (its key set / length) or returns False; one that "
+                   "inspects a single keyword (`properties`) lets schemas through whose other keywords (required, "
+                   "additionalProperties, type …) would have rejected the object")
+    m = py.mod("metadata")
+    n = 0
+    for qn, fn in m.funcs.items():
+        if not qn.endswith(".is_schema_trivial"):
+            continue
+        for r in ast.walk(fn):
+            if isinstance(r, ast.Return) and r.value is not None:
+                v = r.value
+                n += 1
+                if isinstance(v, ast.Constant) and v.value is False:
+                    ctx.ob(rule, qn, True, m.loc(r), "never bypasses")
+                    continue
+                txt = ast.unparse(v)
+                whole = re.search(r"schema\.keys\(\)|set\(schema\)|len\(schema\)|schema\s*==", txt) is not None
+                single = re.findall(r"schema\.get\(\s*'(\w+)'|schema\[\s*'(\w+)'\s*\]", txt)
+                ctx.ob(rule, qn, whole and not single, m.loc(r),
+                       "`%s` decides on the whole schema" % txt[:60] if (whole and not single) else
+                       "`%s` decides on %s only: any other validation keyword is bypassed" % (txt[:60], [a or b for a, b in single] or "part of the schema"))
+    # and the flag is consulted exactly where validation is invoked
+    ve = m.funcs.get("MetadataSchema.validate_and_encode_row")
+    ok = ve is not None and "self._bypass_validation" in ast.unparse(ve) and "self._validate_row" in ast.unparse(ve)
+    ctx.ob(rule, "validate_and_encode_row|guard", ok, m.loc(ve) if ve else m.rel, "validate_and_encode_row calls _validate_row unless _bypass_validation")
+    ctx.ob(rule, "instances", n >= 2, m.rel, "%d is_schema_trivial implementations analysed" % n)
+    return n
